@@ -46,4 +46,9 @@ PROPS = {
         "trusted": ["Go's regexp on the modelled syntax; the lister's own (case-sensitive, legacy-style) anchoring of the account expression is modelled as it is (observation O3)", "the wallet libraries' account enumeration", "account creation by the real account manager / process service (non-distributed)"],
         "assumptions": [],
     },
+    "C08": {
+        "relation": "Corr.CheckSig.check_rcase (the signing root the model computes from the submitted fields = the root under which the harness verified the implementation's signature with the real BLS library and the addressed account's key), hash_mismatches (Sha256.v = crypto/sha256), Corr.CheckInst.check_exact on single and batched requests - tie C08_single_requests / C08_batches_aligned / C08_signature_verifies to the code",
+        "trusted": ["the BLS scheme is abstract in Coq (any scheme with verify(sign) = true); the real library is exercised only by the harness", "Base/Sha256.v uses the kernel's primitive 63-bit integers (PrimInt63.*, listed by Print Assumptions; not axioms of the development); no theorem depends on a property of SHA-256 other than its output length", "fastssz (compared with the harness's own SSZ and with Ssz.v)"],
+        "assumptions": [],
+    },
 }
